@@ -23,7 +23,9 @@ fn transport_event(tr: &mut Tr, case: &str, eos: &Arc<E>, st: &State<E>, pure_re
     let mut add = |kind: &str, val: Result<f64, String>, rf: Result<f64, String>, lnr: Result<f64, String>, corr: Result<f64, String>, pure: Option<Result<f64, String>>| {
         let f = |r: &Result<f64, String>| match r { Ok(v) => fs(*v), Err(_) => json!("error") };
         kinds.push(json!({"kind": kind, "value": f(&val), "reference": f(&rf), "ln_reduced": f(&lnr), "correlation_at_s_res": f(&corr),
-            "pure_value": pure.map(|p| f(&p)).unwrap_or(json!("none")), "available": val.is_ok()}));
+            "pure_value": pure.map(|p| f(&p)).unwrap_or(json!("none")), "available": val.is_ok(),
+            // only viscosity coefficients are shipped; the other two correlations are exercised with invented coefficients
+            "shipped_coefficients": kind == "viscosity"}));
     };
     let e = |r: feos_core::EosResult<f64>| r.map_err(|e| e.to_string());
     let visc_unit = MILLI * PASCAL * SECOND;
